@@ -98,7 +98,7 @@ func (x *Exec) callAssertions(st *State, in ssa.Instruction, c *ssa.CallCommon, 
 		names["recv"] = x.get(st, c.Value)
 	}
 	pkg := x.fn.Pkg.Pkg
-	env := &Env{x: x, st: st, old: x.entry, names: names, pkg: pkg, pkgPath: pkg.Path(), fn: x.fn, atBlock: st.curBlock, proving: true}
+	env := &Env{x: x, st: st, old: x.entry, names: names, pkg: pkg, pkgPath: pkg.Path(), fn: x.fn, atBlock: st.curBlock, atPos: in.Pos(), proving: true}
 	ord := x.callSiteOrdinal(in, name)
 	// reachability probe: an `atcall` obligation on a call site that no feasible path reaches is vacuous
 	probe := fmt.Sprintf("cover:atcall:%s@%d", name, ord)
